@@ -159,6 +159,8 @@ class MiniShard(CMCReadWrite):
 
         self.masked_bits = None
 
+        self.broken = False
+
     @property
     def next_cmc(self) -> np.uint64:
         if self.masked_bits is None:
@@ -195,11 +197,18 @@ class MiniShard(CMCReadWrite):
             ) & cmc
 
         chunk_to_store = bytes(self.shard_spec.data_encoder(buf))
-        if self.can_be_appended(cmc):
-            self.append(chunk_to_store, cmc)
-            self.flush_buffer()
-            return
-        self._chunk_buffer[cmc] = chunk_to_store
+        appendable = self.can_be_appended(cmc)
+        try:
+            if appendable:
+                self.append(chunk_to_store, cmc)
+                self.flush_buffer()
+                return
+            self._chunk_buffer[cmc] = chunk_to_store
+        except Exception:
+            # The chunk (or buffered ones) may be partially recorded: this
+            # minishard can no longer be written out correctly.
+            self.broken = True
+            raise
 
     def append(self, buf: bytes, cmc: np.uint64):
         self.databytearray += buf
@@ -298,6 +307,9 @@ class Shard(ShardCMC):
     def close(self):
         if not self.dirty:
             return
+        if any(minishard.broken for minishard in self.minishard_dict.values()):
+            raise ShardedIOError(f"an earlier store into {self.file_path} "
+                                 "failed, the shard cannot be written out")
         self.file_path.parent.mkdir(exist_ok=True, parents=True)
         with open(self.file_path, "wb") as fp:
             fp.write(b"\0"*int((2**self.shard_spec.minishard_bits) * 16))
